@@ -1,4 +1,5 @@
 import LitexModel.Soc.Loc
+import LitexModel.Soc.Bus
 /-
   C13 — CSR banks at `SoC.finalize`: `CSRBankArray.scan` asks `SoCCSRHandler.address_map` for a page per
   CSR-bearing submodule (in attribute order), then `SoC.finalize` refuses any bank with more simple CSRs than
@@ -46,6 +47,23 @@ def finalizeBanks (h : LocH ν) (paging dataWidth : Nat) (banks : List (Bank ν)
     else .ok (h', l)
 
 end LocH
+
+/-- The bus region `SoC.add_csr_bridge` declares for the `csr` slave: `SoCRegion(origin=csr_base,
+    size=2**(csr.address_width + 2), cached=False)` — `2^address_width` locations of 4 bytes (alignment 32),
+    whatever the CSR data width.  It has to contain every page the CSR handler can grant. -/
+def csrRegion (base addressWidth : Nat) : Region :=
+  { origin := base, size := 2 ^ (addressWidth + 2), cached := false }
+
+/-- The SoC glue around the CSR window, as `SoCMini` without CPU does it (`io_regions_check = False`): the design
+    optionally adds one more bus slave (`add_ram(origin, size)`), and `SoC.finalize` then calls `add_csr_bridge`
+    (`bus.add_slave("csr", region=csrRegion)`) — which is where a slave sitting inside the CSR window is refused
+    ("at the latest when the SoC is finalized").  Names: `0` = csr, `1` = the other slave. -/
+def csrBus (base addressWidth : Nat) (ram : Option (Nat × Nat)) : List (BusOp Nat) :=
+  [.setIoCheck false] ++
+  (match ram with
+   | some (o, sz) => [.addSlave (some 1) (some { origin := some o, size := sz })]
+   | none => []) ++
+  [.addSlave (some 0) (some { origin := some base, size := 2 ^ (addressWidth + 2), cached := false })]
 
 /-- Byte range occupied by a bank at page `k`: `[base + paging·k, base + paging·k + 4·nsimple)`. -/
 def bankRange {ν : Type} (base paging dataWidth : Nat) (p : Bank ν × Int) (x : Int) : Prop :=
